@@ -286,10 +286,15 @@ func (c *Core) forward(bp BundleDescriptor) {
 	var nodes []cla.ConvergenceSender
 	var deleteAfterwards = true
 
+	// The Algorithm is told about failed transmissions to take back what it has booked for the peers it has chosen,
+	// e.g., a spent copy. It has booked nothing for a direct delivery, which it was not asked about.
+	var chosenByRouting = false
+
 	// Try a direct delivery or consult the Algorithm otherwise.
 	nodes = c.senderForDestination(bp.MustBundle().PrimaryBlock.Destination)
 	if nodes == nil {
 		nodes, deleteAfterwards = c.routing.SenderForBundle(bp)
+		chosenByRouting = true
 	}
 
 	var bundleSent = false
@@ -317,9 +322,11 @@ func (c *Core) forward(bp BundleDescriptor) {
 					"error":  err,
 				}).Warn("Sending bundle failed")
 
-				failureMutex.Lock()
-				c.routing.ReportFailure(bp, node)
-				failureMutex.Unlock()
+				if chosenByRouting {
+					failureMutex.Lock()
+					c.routing.ReportFailure(bp, node)
+					failureMutex.Unlock()
+				}
 			} else {
 				log.WithFields(log.Fields{
 					"bundle": bp.ID(),
